@@ -643,6 +643,8 @@ theorem init_ok : WorldOk World.init :=
 /-- outcome of a top-level command -/
 def topOut (sc : Scripts) (w : World) : Cmd → Out
   | .top op => if ¬ (1 < w.c.n ∧ (w.c.objs 1).destructed = false) then .ok else (exec sc topFuel (.ops 1 none [op]) w).out
+  | .tick => if w.hbl.length = 0 then .ok
+             else (hbRound sc (w.hbl.length + 1000) { w with hbTodo := w.hbl.length, hbIdx := 0 }).out
   | _ => .ok
 
 theorem hbRound_good (sc : Scripts) : ∀ (fuel : Nat) (w : World), Inv w.c → WorldWf w → w.initBad = false →
@@ -689,7 +691,8 @@ theorem stepCmd_ok (sc : Scripts) {w : World} (cmd : Cmd) (hw : WorldOk w) :
       · exact ⟨hI, fun gg hgg => g.le _ (hw.wf gg hgg), g.ghost⟩
       · exact ⟨hI, g.wf, g.ghost⟩
   | tick =>
-    refine ⟨?_, by simp [topOut]⟩
+    have g0 := hbRound_good sc (w.hbl.length + 1000) { w with hbTodo := w.hbl.length, hbIdx := 0 } hw.inv hw.wf hw.ghost
+    refine ⟨?_, by simp only [topOut]; split; simp; exact g0.nocrash⟩
     simp only [stepCmd, tick]
     split
     · exact ⟨hw.inv, hw.wf, hw.ghost⟩
